@@ -663,7 +663,8 @@ Proof.
       rewrite H. reflexivity.
     + split; [reflexivity|exact HR].
   - (* ODeadline *)
-    destruct (nth_error (fclosed fs) h) as [[|]|] eqn:E; simpl; (split; [reflexivity|]); try exact HR.
+    destruct (nth_error (fclosed fs) h) as [[|]|] eqn:E; simpl;
+      destruct (nth_error (fread fs) h) as [[| | | |]|] eqn:E2; simpl; (split; [reflexivity|]); try exact HR.
     pose proof HR as [Hcl Hlen Hlenl Hlent Hdl Hcloses Hopen Htopen Hto Hclosed Hlate Hlo Hnook].
     constructor; unfold slot in *; simpl; auto. rewrite Hdl. reflexivity.
   - (* ORStart *)
